@@ -7,7 +7,7 @@ package flight12
 //symgo:replace github.com/pion/dtls/v3/pkg/crypto/prf.PreMasterSecret zzFinPreMasterSecret
 //symgo:replace github.com/pion/dtls/v3/internal/handshakecrypto.VerifyCertificateVerify zzFinVerifyCertificateVerify
 //symgo:stub prf.PreMasterSecret (ECDH) is the uninterpreted function ECDH(peer public key, own private key); handshakecrypto.VerifyCertificateVerify records the signed bytes and returns an arbitrary verdict (valid / invalid)
-//symgo:stub prf.PHash(secret, seed, n) is the uninterpreted function PRF_n(secret, seed) and records its arguments; the PRF hash (CipherSuite.HashFunc) is a harness fake whose Sum is the uninterpreted function H(bytes written). prf.VerifyDataClient/VerifyDataServer themselves (label + Hash(messages)) run for real. That the real PHash is RFC 5246 P_hash is C10 (tls12_prf.go).
+//symgo:stub prf.PHash(secret, seed, n) is the uninterpreted function PRF_n(secret, seed); the PRF hash (CipherSuite.HashFunc) is a harness fake whose Sum is the uninterpreted function H(bytes written). prf.VerifyDataClient/VerifyDataServer themselves (label + Hash(messages)) run for real. That the real PHash is RFC 5246 P_hash is C10 (tls12_prf.go).
 //symgo:stub the cipher suite is a harness fake (Init records the master secret, no record protection); Conn is a harness fake (HandleQueuedPackets counts, SessionKey constant)
 //symgo:assume UF-collision-freedom (named assumption of C04): H and PRF are uninterpreted, so "verify_data equals PRF(master, label, H(T))" holds for every interpretation only if the code hashed exactly T; conversely tampering changes T and, for a collision-free hash/PRF, the expected verify_data
 //symgo:assume handshake messages reach the flight handlers through the handshake cache as complete, unfragmented messages whose 12-byte header is consistent with the cache metadata (what Conn.bufferHandshakeRecord / cacheHandshakePacket store)
@@ -44,33 +44,18 @@ import (
 type zzFinHash struct{ buf []byte }
 
 func (h *zzFinHash) Write(p []byte) (int, error) { h.buf = append(h.buf, p...); return len(p), nil }
-func (h *zzFinHash) Sum(b []byte) []byte {
-	zzFinHashLog = append(zzFinHashLog, append([]byte{}, h.buf...))
-	return append(b, zzFinH(h.buf)...)
-}
-func (h *zzFinHash) Reset()         { h.buf = nil }
-func (h *zzFinHash) Size() int      { return 32 }
-func (h *zzFinHash) BlockSize() int { return 64 }
+func (h *zzFinHash) Sum(b []byte) []byte         { return append(b, zzFinH(h.buf)...) }
+func (h *zzFinHash) Reset()                      { h.buf = nil }
+func (h *zzFinHash) Size() int                   { return 32 }
+func (h *zzFinHash) BlockSize() int              { return 64 }
 
 func zzFinNewHash() hash.Hash { return &zzFinHash{} }
 
 func zzFinH(data []byte) []byte { return zzsymUF("H", 32, data) }
 
-// zzFinPHashCall is one recorded call of prf.PHash.
-type zzFinPHashCall struct {
-	secret, seed []byte
-	n            int
-}
-
-var (
-	zzFinPHashLog []zzFinPHashCall // every prf.PHash call (secret, label+seed, length)
-	zzFinHashLog  [][]byte         // the input of every hash.Sum
-)
-
 // zzFinPHash replaces prf.PHash: P_hash(secret, seed)[0..n-1] is the uninterpreted function PRF_n(secret, seed).
 // (That the real PHash is RFC 5246 section 5 P_hash is proved in C10/tls12_prf.go.)
 func zzFinPHash(secret, seed []byte, n int, _ prf.HashFunc) ([]byte, error) {
-	zzFinPHashLog = append(zzFinPHashLog, zzFinPHashCall{append([]byte{}, secret...), append([]byte{}, seed...), n})
 	return zzsymUF(zzFinPRFName(n), n, secret, seed), nil
 }
 
@@ -107,8 +92,6 @@ func zzFinVerifyCertificateVerify(bodies []byte, _ dtlshash.Algorithm, _ signatu
 
 // zzFinReset clears the recording globals (all entries of the package share them).
 func zzFinReset() {
-	zzFinPHashLog = nil
-	zzFinHashLog = nil
 	zzFinCVLog = nil
 }
 
@@ -131,6 +114,7 @@ const (
 // fake cipher suite / conn / logger
 
 type zzFinSuite struct {
+	hashFunc    func() hash.Hash // nil: the uninterpreted hash H
 	auth        ciphersuite.AuthenticationType
 	kx          ciphersuite.KeyExchangeAlgorithm
 	initialized bool
@@ -141,7 +125,12 @@ type zzFinSuite struct {
 func (s *zzFinSuite) String() string                          { return "zzFinSuite" }
 func (s *zzFinSuite) ID() ciphersuite.ID                      { return ciphersuite.TLS_ECDHE_ECDSA_WITH_AES_128_GCM_SHA256 }
 func (s *zzFinSuite) CertificateType() clientcertificate.Type { return clientcertificate.ECDSASign }
-func (s *zzFinSuite) HashFunc() func() hash.Hash              { return zzFinNewHash }
+func (s *zzFinSuite) HashFunc() func() hash.Hash {
+	if s.hashFunc != nil {
+		return s.hashFunc
+	}
+	return zzFinNewHash
+}
 func (s *zzFinSuite) AuthenticationType() ciphersuite.AuthenticationType {
 	return s.auth
 }
